@@ -12,16 +12,16 @@ STACK_IDS = [s.id for s in pool.STACKS]
 # runs per build: (quick, thorough)
 HIST = {
     'C12': dict(profile='ownership', groups=['core', 'io', 'conv'], compile_groups=('core',),
-                builds=[('rel-plain', 160000, 6000000), ('dbg-asan', 30000, 1000000), ('rel-asan', 30000, 1000000)]),
+                builds=[('rel-plain', 160000, 3000000), ('dbg-asan', 30000, 500000), ('rel-asan', 30000, 500000)]),
     'C05': dict(profile='conversion', groups=['core', 'io', 'conv'], compile_groups=('conv',), sweep='convsweep',
-                builds=[('rel-plain', 120000, 5000000), ('dbg-asan', 30000, 1000000)]),
+                builds=[('rel-plain', 120000, 2500000), ('dbg-asan', 30000, 500000)]),
     'C06': dict(profile='roundtrip', groups=['core', 'io', 'conv'], compile_groups=('io',), sweep='rtsweep',
-                builds=[('rel-plain', 120000, 5000000), ('dbg-asan', 30000, 1000000)]),
+                builds=[('rel-plain', 120000, 2500000), ('dbg-asan', 30000, 500000)]),
     'C07': dict(profile='portability', groups=['core', 'io', 'conv'], compile_groups=(),
-                builds=[('rel-plain', 120000, 5000000), ('dbg-asan', 30000, 1000000)]),
-    'C15': dict(profile='ub', groups=['core', 'io', 'conv'], compile_groups=(), cross=True, valgrind=(2000, 60000),
-                builds=[('dbg-asan', 30000, 1000000), ('rel-asan', 30000, 1000000), ('dbg-plain', 30000, 1000000),
-                        ('rel-plain', 30000, 1000000)]),
+                builds=[('rel-plain', 120000, 2500000), ('dbg-asan', 30000, 500000)]),
+    'C15': dict(profile='ub', groups=['core', 'io', 'conv'], compile_groups=(), cross=True, valgrind=(2000, 20000),
+                builds=[('dbg-asan', 30000, 400000), ('rel-asan', 30000, 400000), ('dbg-plain', 30000, 400000),
+                        ('rel-plain', 30000, 400000)]),
 }
 LEVEL = 'exploration'
 
